@@ -980,8 +980,10 @@ where
                             // the handshake is five matched round trips: five replies with different nonces (C12)
                             if name == "Synchronized" {
                                 let n = p.sync_nonces.borrow().get(&a).map_or(0, Vec::len);
-                                if n < 5 {
-                                    out.hit("C12", "synchronized-early", &scen, &format!("peer {id} address {a}: Synchronized after {n} distinct sync replies were received from it (5 round trips required; duplicated replies do not count)"));
+                                // the number of round trips the library itself announces (Synchronizing { total, .. })
+                                let total = lst.iter().rev().find_map(|e| e.strip_prefix("Synchronizing(").and_then(|r| r.trim_end_matches(')').split('/').nth(1)).and_then(|t| t.parse::<usize>().ok())).unwrap_or(5);
+                                if n < total {
+                                    out.hit("C12", "synchronized-early", &scen, &format!("peer {id} address {a}: Synchronized after {n} distinct sync replies were received from it ({total} round trips announced; duplicated replies do not count)"));
                                 }
                             }
                             // timing (C07)
